@@ -247,6 +247,55 @@ func init() {
 		cell := value(structure{s})
 		return iface{t: types.NewPointer(x.errStrType), v: &cell}
 	})
+	// errors.Is / errors.Unwrap: the chain walk of the real functions without their reflection-based
+	// comparability test (comparable dynamic types only; Unwrap() []error is not modelled)
+	unwrapOnce := func(x *Exec, fr *frame, e iface) (iface, bool) {
+		m := x.findMethod(e.t, "Unwrap")
+		if m == nil {
+			return iface{}, false
+		}
+		sig := m.Signature
+		if sig.Params().Len() != 0 || sig.Results().Len() != 1 {
+			return iface{}, false
+		}
+		if _, isSlice := sig.Results().At(0).Type().Underlying().(*types.Slice); isSlice {
+			panic(unsupported{"errors: Unwrap() []error"})
+		}
+		r, ok := x.callSSA(fr, token.NoPos, m, []value{e.v}, nil).(iface)
+		return r, ok
+	}
+	reg("errors.Unwrap", func(x *Exec, fr *frame, args []value) value {
+		e := args[0].(iface)
+		if e.t == nil {
+			return iface{}
+		}
+		r, _ := unwrapOnce(x, fr, e)
+		return r
+	})
+	reg("errors.Is", func(x *Exec, fr *frame, args []value) value {
+		e, target := args[0].(iface), args[1].(iface)
+		if e.t == nil || target.t == nil {
+			return x.tb.Bool(e.t == nil && target.t == nil)
+		}
+		for depth := 0; depth < 32; depth++ {
+			if types.Identical(e.t, target.t) && types.Comparable(e.t) {
+				if x.branch(x.equals(e.t, e.v, target.v)) {
+					return x.tb.True()
+				}
+			}
+			if m := x.findMethod(e.t, "Is"); m != nil && m.Signature.Params().Len() == 1 {
+				if r, ok := x.callSSA(fr, token.NoPos, m, []value{e.v, target}, nil).(*Term); ok && x.branch(r) {
+					return x.tb.True()
+				}
+			}
+			next, ok := unwrapOnce(x, fr, e)
+			if !ok || next.t == nil {
+				return x.tb.False()
+			}
+			e = next
+		}
+		panic(unsupported{"errors.Is: chain longer than 32"})
+	})
 	// Fprintf(w, format, args...) = w.Write([]byte(Sprintf(format, args...)))
 	reg("fmt.Fprintf", func(x *Exec, fr *frame, args []value) value {
 		s := x.sprintf(args[1].(strVal), args[2].(sliceVal))
@@ -259,7 +308,7 @@ func init() {
 		if w.t == nil {
 			x.rtPanic("invalid memory address or nil pointer dereference (Fprintf to a nil io.Writer)")
 		}
-		m := x.P.prog.LookupMethod(w.t, nil, "Write")
+		m := x.findMethod(w.t, "Write")
 		if m == nil {
 			panic(unsupported{"Fprintf: writer without Write method"})
 		}
@@ -456,7 +505,7 @@ func runePred(name string, f func(rune) bool) intrinsic {
 func (x *Exec) sprintf(format strVal, args sliceVal) strVal {
 	f, ok := format.concrete()
 	if !ok {
-		panic(unsupported{"fmt with symbolic format"})
+		return x.sprintfSymbolic(x.bytesOf(format), args)
 	}
 	var out []*Term
 	ai := 0
@@ -533,6 +582,102 @@ func (x *Exec) sprintf(format strVal, args sliceVal) strVal {
 	return x.mkStr(out)
 }
 
+// sprintfSymbolic handles a format string with symbolic bytes (data spliced into the format): every
+// symbolic byte is decided to be '%' or not by forking; the byte after a '%' is decided among the plain
+// verbs, a second '%', or a "bad verb" (rendered as fmt does: %!c(type=value)); flags, widths and
+// precisions at symbolic positions are outside the model (inconclusive).
+func (x *Exec) sprintfSymbolic(f []*Term, args sliceVal) strVal {
+	tb := x.tb
+	is := func(b *Term, c byte) bool {
+		if b.op == OConst {
+			return byte(b.u) == c
+		}
+		return x.branch(tb.Eq(b, tb.bytes[c]))
+	}
+	var out []*Term
+	ai := 0
+	for i := 0; i < len(f); i++ {
+		if !is(f[i], '%') {
+			out = append(out, f[i])
+			continue
+		}
+		i++
+		if i >= len(f) {
+			out = append(out, x.bytesOf(strVal{s: "%!(NOVERB)"})...)
+			break
+		}
+		v := f[i]
+		if is(v, '%') {
+			out = append(out, tb.bytes['%'])
+			continue
+		}
+		verb := byte(0)
+		for _, c := range []byte("svdxXc") {
+			if is(v, c) {
+				verb = c
+				break
+			}
+		}
+		if verb == 0 {
+			for _, c := range []byte("0123456789+-# .*[") {
+				if is(v, c) {
+					panic(unsupported{"fmt: flag/width at a symbolic format position"})
+				}
+			}
+		}
+		if ai >= len(args.a) {
+			out = append(out, tb.bytes['%'], tb.bytes['!'], v)
+			out = append(out, x.bytesOf(strVal{s: "(MISSING)"})...)
+			continue
+		}
+		a := args.a[ai]
+		ai++
+		if verb != 0 {
+			out = append(out, x.fmtArg(verb, a)...)
+			continue
+		}
+		out = append(out, x.badVerb(v, a)...)
+	}
+	if ai < len(args.a) {
+		out = append(out, x.bytesOf(strVal{s: "%!(EXTRA "})...)
+		for k := ai; k < len(args.a); k++ {
+			if k > ai {
+				out = append(out, tb.bytes[','], tb.bytes[' '])
+			}
+			tname := "?"
+			if iv, ok := args.a[k].(iface); ok && iv.t != nil {
+				tname = iv.t.String()
+			}
+			out = append(out, x.bytesOf(strVal{s: tname + "="})...)
+			out = append(out, x.fmtArg('v', args.a[k])...)
+		}
+		out = append(out, tb.bytes[')'])
+	}
+	return x.mkStr(out)
+}
+
+// badVerb renders what fmt prints for a verb that does not apply to the argument: %!<verb>(<type>=<value>)
+func (x *Exec) badVerb(verb *Term, a value) []*Term {
+	tb := x.tb
+	tname := "?"
+	if iv, ok := a.(iface); ok && iv.t != nil {
+		tname = iv.t.String()
+	}
+	out := []*Term{tb.bytes['%'], tb.bytes['!'], verb, tb.bytes['(']}
+	out = append(out, x.bytesOf(strVal{s: tname + "="})...)
+	out = append(out, x.fmtArg('v', a)...)
+	return append(out, tb.bytes[')'])
+}
+
+// findMethod returns the exported method name of type t, or nil (LookupMethod panics when there is none).
+func (x *Exec) findMethod(t types.Type, name string) *ssa.Function {
+	sel := x.P.prog.MethodSets.MethodSet(t).Lookup(nil, name)
+	if sel == nil {
+		return nil
+	}
+	return x.P.prog.MethodValue(sel)
+}
+
 // hexDigits renders a non-negative value in base 16 (upper or lower case) without leading zeros,
 // forking over the number of significant nibbles.
 func (x *Exec) hexDigits(v *Term, upper bool) []*Term {
@@ -567,7 +712,32 @@ func (x *Exec) fmtArg(verb byte, a value) []*Term {
 		if verb == 's' || verb == 'v' {
 			return x.bytesOf(v)
 		}
+		if verb == 'x' || verb == 'X' {
+			var out []*Term
+			for _, b := range x.bytesOf(v) {
+				hi := x.tb.Zext(x.tb.Extract(b, 7, 4), 8)
+				lo := x.tb.Zext(x.tb.Extract(b, 3, 0), 8)
+				a := byte('a')
+				if verb == 'X' {
+					a = 'A'
+				}
+				for _, nib := range []*Term{hi, lo} {
+					out = append(out, x.tb.Ite(x.tb.Ult(nib, x.tb.Const(8, 10)), x.tb.Add(nib, x.tb.Const(8, '0')), x.tb.Add(nib, x.tb.Const(8, uint64(a-10)))))
+				}
+			}
+			return out
+		}
+		if verb == 'q' {
+			panic(unsupported{"fmt %q"})
+		}
+		return x.badVerb(x.tb.bytes[verb], a)
 	case *Term:
+		if v.sort.K == KBV && (verb == 's' || verb == 'q' || verb == 'U' || verb == 'o' || verb == 'b' || verb == 'e' || verb == 'f' || verb == 'g' || verb == 't' || verb == 'p') {
+			if verb == 's' || verb == 't' || verb == 'p' || verb == 'e' || verb == 'f' || verb == 'g' {
+				return x.badVerb(x.tb.bytes[verb], a)
+			}
+			panic(unsupported{"fmt %" + string(verb) + " of an integer"})
+		}
 		if v.sort.K == KBV && (verb == 'x' || verb == 'X') {
 			neg := false
 			if isSigned(iv.t) && x.branch(x.tb.Slt(v, x.tb.Const(v.sort.W, 0))) {
